@@ -12,6 +12,46 @@ DRIVERS = ["syn"]
 PFX = "C03-"
 
 
+
+ALIAS_OF = {"\u2192": ["->"], "\u2295": ["+"], "\u29fa": ["~"], "\u21cc": ["<->", " vs "], "\u2228": ["|"], "\u2227": ["&"], "\u00a7": ["#"]}
+ALIAS_ATOMS = ["x", "B2", "1", '"s"', "[a,b]", "[", "]", ",", "::", "true", "$V", "X<q>"]
+
+
+def alias_substitution_stream(ctx):
+    """Spelling convergence on ARBITRARY accepted texts, not only content-model documents: every text built from short
+    sequences of value atoms and Unicode operators, glued with and without blanks, against the same text with each
+    operator occurrence replaced by an ASCII alias. Both must canonicalise to identical bytes (or both be refused)."""
+    import itertools
+    ops = list(ALIAS_OF)
+    n = 0
+    for length in (2, 3, 4):
+        seqs = list(itertools.product(ALIAS_ATOMS + ops, repeat=length)) if length < 4 else \
+            [tuple(ctx.rng.choice(ALIAS_ATOMS + ops) for _ in range(4)) for _ in range(ctx.scale(1500, 40000))]
+        if length == 3 and ctx.quick():
+            seqs = ctx.rng.sample(seqs, 2500)
+        for tup in seqs:
+            if not any(t in ALIAS_OF for t in tup) or tup[0] in ALIAS_OF and tup[0] != "\u00a7":
+                continue
+            for glue in ("", " "):
+                uni = "A::" + glue.join(tup) + "\n"
+                choice = [ctx.rng.choice(ALIAS_OF[t]) if t in ALIAS_OF else t for t in tup]
+                asc = "A::" + glue.join(choice) + "\n"
+                if " vs " in asc and glue == "":
+                    asc = "A::" + "".join(choice).replace("  ", " ") + "\n"
+                    uni = "A::" + "".join((" " + t + " ") if (c == " vs ") else t for t, c in zip(tup, choice)).replace("  ", " ") + "\n"
+                cu, _, eu = doccases.canon_impl(uni)
+                ca, _, ea = doccases.canon_impl(asc)
+                ctx.count()
+                n += 1
+                if (eu is None) != (ea is None) or (eu is None and cu != ca):
+                    ctx.property_failure({"stream": "alias substitution", "unicode_spelling": uni, "alias_spelling": asc,
+                                          "canonical_unicode": cu, "canonical_alias": ca, "refused_unicode": eu, "refused_alias": ea},
+                                         "the ASCII-alias spelling of a text does not canonicalise like its Unicode spelling")
+                elif eu is None and cu != uni:
+                    ctx.nontrivial(("alias", uni, asc))
+    ctx.hist("alias_substitution_pairs", n)
+
+
 def run(ctx):
     hm = doccases.have_model(ctx)
     # core fragment (theorems C03_strict_emit_core / text round trip): deep nesting; strict profile of every canonical text
@@ -89,6 +129,7 @@ def run(ctx):
         loop.close()
         shutil.rmtree(tmp, ignore_errors=True)
     ctx.sample({"canonical": canon_outputs[0][0]})
+    alias_substitution_stream(ctx)
     # ---- curated inputs whose canonical text exercises corner cases of the strict profile (regressions of repaired defects:
     #      a bare `//` comment must not become `// ` with a trailing blank, 3fa2dc1) ----
     CURATED = ["===D===\n//\nK::1\n===END===\n", "===D===\nB:\n  //\n  K::1\n  //\n===END===\n", "===D===\nK::1\n//\n===END===\n",
